@@ -131,3 +131,28 @@ Proof. exact IsOdd_spec. Qed.
 Example C01_topX_example : gen_topX 5 0 10 (Qmake (-1) 2) 5 0 = 3%Z /\ gen_topX 7 0 10 (Qmake (-1) 2) 5 0 = 2%Z.
 Proof. vm_compute. split; reflexivity. Qed.
 Print Assumptions C01_topX_exact_at_vertices.
+
+(* K3 (Gen/Kernels2_gen.v: the first statements of engine.go:isValidAelOrder, regenerated on every run): the order in
+   which insertLeftEdge places a new edge in the active edge list.  Different current X: by X.  Same X, edges not
+   collinear: the newcomer goes to the right exactly when it IS to the right of the resident at every real ordinate above
+   the scanline (both edges leaving the common point upwards; coordinates within 2^29).  The collinear tie-breaks that
+   follow in the source are not modelled (parameter rest). *)
+From Clip Require Import Model.AelOrderProofs.
+Theorem C01_ael_order_by_curX : forall nb nt rt ncx rcx rest, ncx <> rcx ->
+  gen_isValidAelOrder_prefix (px nb) (py nb) ncx (px nt) (py nt) rcx (px rt) (py rt) rest = (rcx <? ncx)%Z.
+Proof. exact ael_order_by_curX. Qed.
+Theorem C01_ael_order_geometric : forall P nt rt cx rest,
+  coord_ok two29 P -> coord_ok two29 nt -> coord_ok two29 rt ->
+  (py nt < py P)%Z -> (py rt < py P)%Z -> cross_exact rt P nt <> 0%Z ->
+  forall y : R, (y < IZR (py P))%R ->
+  (gen_isValidAelOrder_prefix (px P) (py P) cx (px nt) (py nt) cx (px rt) (py rt) rest = true
+   <-> (edge_x P rt y < edge_x P nt y)%R).
+Proof. exact ael_order_geometric. Qed.
+Theorem C01_ael_order_prefix_covers_three_statements : gen_isValidAelOrder_prefix_len = 3%Z.
+Proof. exact isValidAelOrder_prefix_len. Qed.
+Example C01_ael_order_example :
+  (* resident goes up-left to (0,0), newcomer up-right to (10,0), both from (5,10): newcomer is on the right *)
+  gen_isValidAelOrder_prefix 5 10 5 10 0 5 0 0 false = true /\
+  gen_isValidAelOrder_prefix 5 10 5 0 0 5 10 0 true = false.
+Proof. vm_compute. split; reflexivity. Qed.
+Print Assumptions C01_ael_order_geometric.
